@@ -10,8 +10,9 @@ from ..monitors import VirtualFS
 from ..refeval import RefRuntimeError
 from ..refvm import IncludeParseError, RefVM, norm_url
 
-ROOTS = ['https://host.example/a/b/main.bare', '/home/u/proj/main.bare', 'proj/main.bare', 'main.bare', 'https://host.example/main.bare', None]
-SYS_PREFIXES = ['/sys/prefix/', 'sys/', 'https://cdn.example/lib/', 'lib/sys/', '/sys/prefix/']
+ROOTS = ['https://host.example/a/b/main.bare', '/home/u/proj/main.bare', 'proj/main.bare', 'main.bare', 'https://host.example/main.bare', None,
+         'vfs://store/a/b/main.bare', 'app:/pkg/scripts/main.bare', 'gs://bucket/main.bare', 'file:///srv/x/main.bare', 'http://h.example/a/main.bare?v=1']
+SYS_PREFIXES = ['/sys/prefix/', 'sys/', 'https://cdn.example/lib/', 'lib/sys/', '/sys/prefix/', 'mem://lib/', 'zip:/bundle/lib/']
 
 
 def plan(tier, seed):
@@ -23,7 +24,7 @@ def meta(tier):
     return {
         'level': 'fault_enumeration',
         'rule': ('seeded include trees to depth 4 and fan-out 3 over a virtual file system with nested directories; roots: URL with and '
-                 'without directories, absolute path, relative path, bare file name, and no root URL function; references: same '
+                 'without directories (http, https, file and application-defined schemes such as vfs:// app:/ gs://), absolute path, relative path, bare file name, and no root URL function; references: same '
                  'directory, sub-directory, ../, absolute URL/path, system includes against a configured absolute / relative / URL prefix; includes wrapped in a function of the root file (global scope); adjacent includes '
                  '(merged statement), statements before/between/after, early return inside an included file, empty / blank / comment-only included files, globals and functions '
                  'defined by includes and used by the includer. For every tree the fault-free run and, for EVERY fetch position k, the '
